@@ -21,6 +21,8 @@ pub fn run(id: &str) -> Result<String, String> {
         "F29" => f29(),
         "F30" => f30(),
         "F32" => f32_(),
+        "F36" => f36(),
+        "F37" => f37(),
         _ => Err(format!("unknown witness {id}")),
     }
 }
@@ -392,7 +394,7 @@ fn f29() -> Result<String, String> {
         });
         match r { Err(_) => bad.push(format!("{what}: PANIC")), Ok(Err(e)) => bad.push(format!("{what}: {e}")), Ok(Ok(1)) => {}, Ok(Ok(n)) => bad.push(format!("{what}: {n} records")) }
     }
-    if bad.is_empty() { Ok("\"cases\":4".into()) } else { Err(bad.join("; ")) }
+    if bad.is_empty() { Ok("\"cases\":6".into()) } else { Err(format!("CRAM write+read of records without quality scores fails: {}", bad.join("; "))) }
 }
 
 /// F3a: querying a CSI/BAI index that stores a bin id beyond the geometry's bin range must not panic.
@@ -546,4 +548,70 @@ fn f32_() -> Result<String, String> {
     }
     if !bad.is_empty() { return Err(format!("bcf Reader::read_record_buf PANICS on a record with: {}", bad.join("; "))); }
     Ok(format!("\"cases\":{n}"))
+}
+
+/// F36: bam lazy record with the CIGAR placeholder kSmN and a CG array of the wrong subtype (e.g. B:C with 5 elements):
+/// Record::cigar().iter() hit unreachable!() because the raw CG bytes were taken for 32-bit operations whatever the subtype.
+fn f36() -> Result<String, String> {
+    let mut raw = b"BAM\x01".to_vec();
+    let text = b"@HD\tVN:1.6\n@SQ\tSN:sq0\tLN:100000\n";
+    raw.extend((text.len() as u32).to_le_bytes()); raw.extend(text);
+    raw.extend(1u32.to_le_bytes()); raw.extend(4u32.to_le_bytes()); raw.extend(b"sq0\0"); raw.extend(100000u32.to_le_bytes());
+    let mut bad = Vec::new();
+    let mut n = 0;
+    for (what, data) in [("CG:B:C with 5 elements", vec![b'C', b'G', b'B', b'C', 5, 0, 0, 0, 1, 2, 3, 4, 5]), ("CG:B:s with 3 elements", vec![b'C', b'G', b'B', b's', 3, 0, 0, 0, 1, 0, 2, 0, 3, 0]), ("CG:B:I with 1 element", vec![b'C', b'G', b'B', b'I', 1, 0, 0, 0, 0x40, 0, 0, 0])] {
+        n += 1;
+        let mut r = Vec::new();
+        r.extend(0i32.to_le_bytes()); r.extend(0i32.to_le_bytes()); r.push(3); r.push(30); r.extend(4680u16.to_le_bytes());
+        r.extend(2u16.to_le_bytes()); r.extend(0u16.to_le_bytes()); r.extend(4u32.to_le_bytes());
+        r.extend((-1i32).to_le_bytes()); r.extend((-1i32).to_le_bytes()); r.extend(0i32.to_le_bytes());
+        r.extend(b"r0\0"); r.extend(((4u32 << 4) | 4).to_le_bytes()); r.extend(((10u32 << 4) | 3).to_le_bytes());
+        r.extend([0x11, 0x11]); r.extend([30, 30, 30, 30]); r.extend(&data);
+        let mut file = raw.clone(); file.extend((r.len() as u32).to_le_bytes()); file.extend(r);
+        let res = std::panic::catch_unwind(move || {
+            use noodles_sam::alignment::Record as _;
+            let mut reader = noodles_bam::io::Reader::from(&file[..]);
+            let h = reader.read_header().unwrap();
+            let mut record = noodles_bam::Record::default();
+            if reader.read_record(&mut record).is_err() { return; }
+            for op in record.cigar().iter() { let _ = op; }
+            let _ = record.alignment_end(); let _ = noodles_sam::alignment::RecordBuf::try_from_alignment_record(&h, &record);
+        });
+        if res.is_err() { bad.push(what); }
+    }
+    if !bad.is_empty() { return Err(format!("bam::Record::cigar().iter() PANICS on a record with the kSmN placeholder and {}", bad.join("; "))); }
+    Ok(format!("\"cases\":{n}"))
+}
+
+/// F37 (known finding, C07): a record without quality scores (QUAL *) written by the CRAM writer cannot be read back:
+/// the record is flagged "quality scores stored as array" but no quality bytes are written.
+fn f37() -> Result<String, String> {
+    use noodles_sam as sam;
+    use sam::alignment::io::Write as _;
+    let header: sam::Header = "@HD\tVN:1.6\n@SQ\tSN:sq0\tLN:100\n".parse().map_err(|e| format!("{e}"))?;
+    let repo = noodles_fasta::Repository::new(vec![noodles_fasta::Record::new(noodles_fasta::record::Definition::new("sq0", None), noodles_fasta::record::Sequence::from(vec![b'A'; 100]))]);
+    let mut bad = Vec::new();
+    for (what, body) in [("one mapped read, QUAL *", "r0\t0\tsq0\t5\t30\t4M\t*\t0\t0\tAAAA\t*\n"), ("mapped read with a mismatch, QUAL *", "r0\t0\tsq0\t5\t30\t4M\t*\t0\t0\tACGT\t*\n"), ("two reads, one with QUAL", "r0\t0\tsq0\t5\t30\t4M\t*\t0\t0\tACGT\t*\nr1\t0\tsq0\t6\t30\t4M\t*\t0\t0\tACGT\tIIII\n"), ("unmapped read, QUAL *", "r0\t4\t*\t0\t0\t*\t*\t0\t0\tACGT\t*\n"), ("mapped read 1M3M with a mismatch, QUAL *", "r0\t0\tsq0\t5\t30\t1M3M\t*\t0\t0\tCAAA\t*\n"), ("control: QUAL present", "r0\t0\tsq0\t5\t30\t4M\t*\t0\t0\tACGT\tIIII\n")] {
+        let r = std::panic::catch_unwind(|| -> Result<(), String> {
+            let mut rd = sam::io::Reader::new(body.as_bytes());
+            let recs: Vec<_> = rd.record_bufs(&header).collect::<Result<_, _>>().map_err(|e| format!("sam: {e}"))?;
+            let mut w = noodles_cram::io::writer::Builder::default().set_reference_sequence_repository(repo.clone()).build_from_writer(Vec::new());
+            w.write_header(&header).map_err(|e| format!("write_header: {e}"))?;
+            for r in &recs { w.write_alignment_record(&header, r).map_err(|e| format!("write: {e}"))?; }
+            w.try_finish(&header).map_err(|e| format!("finish: {e}"))?;
+            let data = w.get_ref().clone();
+            let mut rd = noodles_cram::io::reader::Builder::default().set_reference_sequence_repository(repo.clone()).build_from_reader(&data[..]);
+            let h2 = rd.read_header().map_err(|e| format!("read_header: {e}"))?;
+            let mut n = 0;
+            for (i, r) in rd.records(&h2).enumerate() {
+                let r = r.map_err(|e| format!("read record {i}: {e}"))?; n += 1;
+                let r = sam::alignment::RecordBuf::try_from_alignment_record(&h2, &r).map_err(|e| format!("convert: {e}"))?;
+                if r.sequence() != recs[i].sequence() || r.quality_scores() != recs[i].quality_scores() || r.cigar() != recs[i].cigar() { return Err(format!("record {i} differs: seq {:?} qual {:?}", r.sequence(), r.quality_scores())); }
+            }
+            if n != recs.len() { return Err(format!("{n} records instead of {}", recs.len())); }
+            Ok(())
+        });
+        match r { Err(_) => bad.push(format!("{what}: PANIC")), Ok(Err(e)) => bad.push(format!("{what}: {e}")), Ok(Ok(())) => {} }
+    }
+    if bad.is_empty() { Ok("\"cases\":6".into()) } else { Err(format!("CRAM write+read of records without quality scores fails: {}", bad.join("; "))) }
 }
